@@ -12,7 +12,7 @@ MODULE = "DfolsVerif.Properties.C10"
 BUILD_TARGETS = ss.ACCEPT_TARGETS
 THEOREMS = ["Dfols.C10.C10_nruns", "Dfols.C10.C10_maxfun", "Dfols.C10.C10_restarts", "Dfols.C10.C10_small", "Dfols.C10.C10_rhoend",
             "Dfols.C10.C10_src_maxfun", "Dfols.C10.C10_src_small", "Dfols.C10.C10_src_threshold", "Dfols.C10.C10_src_rhoend",
-            "Dfols.C10.C10_src_restarts", "Dfols.C10.C10_src_success_reasons", "Dfols.C10.C10_soft_refusal", "Dfols.C10.C10_src_nruns_once", "Dfols.C10.C10_src_after_loop", "Dfols.C10.C10_src_exit_object_on_break", "Dfols.C10.C10_src_nruns_returned", "Dfols.C10.C10_src_nruns_whole_run"]
+            "Dfols.C10.C10_src_restarts", "Dfols.C10.C10_src_success_reasons", "Dfols.C10.C10_soft_refusal", "Dfols.C10.C10_src_nruns_once", "Dfols.C10.C10_src_after_loop", "Dfols.C10.C10_src_exit_object_on_break", "Dfols.C10.C10_src_nruns_returned", "Dfols.C10.C10_src_nruns_whole_run", "Dfols.C10.C10_src_exit_object_at_return"]
 
 
 def pre_build(ctx):
